@@ -197,28 +197,702 @@ def proj (j : Nat) : List GEv → List Ev
 /-- every one of the `n` layers can perform its part of the log -/
 def Accepted (n : Nat) (g : List GEv) : Prop := ∀ j, j < n → ((LSt.run {} (view j g)).isSome)
 
+/-! ## configured layers: what transparency means under a configuration
+
+Every layer has knobs, and for every value of every knob there are requests for which the layer's protective
+condition is not triggered: a retry layer that allows no retry (`max_attempts` 0 or 1), a fallback whose `handle`
+predicate rejects the error at hand, a hedge with no room for a hedge (`max_hedged_attempts` 0 or 1), a time limiter
+whose timeout is longer than the whole request took, a rate limiter / bulkhead / adaptive limiter / circuit breaker
+whose limit the traffic of the whole case cannot reach. `denote` says what a stack of configured layers makes of ONE
+request whose inner calls have the scripted outcomes `s` (the i-th inner call made for the request gets the i-th
+outcome; beyond the script every call succeeds): how many inner calls are made and which answer comes back, as a
+function — or `none` where the answer depends on more than the request itself (attempts racing each other, a limit
+that other requests may have used up), which the model does not predict.
+
+A service, as far as one request can tell, is a function from (inner calls made so far, outcomes still to come) to
+(answer, inner calls made, outcomes left). Layers are functions from services to services. -/
+
+/-- which inner errors a predicate of a layer accepts (`retry_on`, `handle`), by the kind of the error — the text the
+layers below put around an error never hides its kind -/
+inductive Pred
+  | all              -- every error (no predicate configured)
+  | none             -- no error
+  | kind (k : Nat)   -- the errors of kind `k`
+deriving DecidableEq, Repr
+
+def Pred.holds : Pred → Nat → Bool
+  | .all, _ => true
+  | .none, _ => false
+  | .kind k, kd => kd == k
+
+/-- the fallback strategies -/
+inductive Strat
+  | value | valueFn | fromErr | fromReq | service | exc
+deriving DecidableEq, Repr
+
+/-- an error on its way up: the inner service's error `ierr<kind>:<serial>` of the request's `ord`-th inner call,
+inside the text the layers have put around it -/
+structure Err where
+  pre  : String
+  kind : Nat
+  ord  : Nat
+  post : String
+deriving DecidableEq, Repr
+
+/-- a layer's pass-through variant around an error of its inner service: `name(…)` -/
+def Err.wrap (e : Err) (name : String) : Err := { e with pre := name ++ "(" ++ e.pre, post := e.post ++ ")" }
+
+inductive Ans
+  | ok (ord : Nat)     -- the response of the request's `ord`-th inner call, unchanged
+  | lit (s : String)   -- a response a layer made up (a fallback value), rendered
+  | err (e : Err)
+deriving DecidableEq, Repr
+
+def Ans.mapErr (f : Err → Err) : Ans → Ans
+  | .err e => .err (f e)
+  | a => a
+
+/-- one layer in one configuration, as far as one request can tell -/
+inductive LCfg
+  /-- forwards once; an error comes back under the pass-through variant `name(…)` (bulkhead that waits for ever,
+  cache / coalesce for a key of its own, executor, circuit breaker that cannot trip) -/
+  | wrap (name : String)
+  /-- forwards once; response and error unchanged (chaos with both rates 0: its error type is the inner one) -/
+  | bare
+  /-- a capacity of `cap` that rejects after waiting `wait` ms: untriggered for certain while the calls of the whole case
+  so far number at most `cap`, or the request took less than `wait` (rate limiter, bulkhead with a bounded wait, adaptive
+  limiter with min = max, circuit breaker below its minimum number of calls) -/
+  | guard (name : String) (cap wait : Nat)
+  /-- a time limit: untriggered for certain when the whole request took less than `timeout` ms -/
+  | limiter (name : String) (timeout : Nat)
+  /-- `max` attempts, the first one included, on errors that `p` accepts -/
+  | retry (max : Nat) (p : Pred)
+  | fallback (st : Strat) (p : Pred)
+  /-- at most `n` attempts, the first one included; a hedge starts `delay` ms after the first (`none`: at once) -/
+  | hedge (n : Nat) (delay : Option Nat)
+  /-- errors of kind 1 are connection failures: re-issued after the policy's back-off (`policy`: there is one) at most
+  `max` times (`none`: without limit), when `retry` is set -/
+  | reconnect (max : Option Nat) (policy retry : Bool)
+  /-- a triggering configuration the model does not predict -/
+  | blackbox
+deriving DecidableEq, Repr
+
+/-- what else the answer may depend on -/
+structure Ctx where
+  tag    : Nat   -- the request's tag
+  demand : Nat   -- upper bound on the calls made at any one boundary so far in the case
+  span   : Nat   -- virtual time from the request's arrival to its answer
+
+abbrev Svc := Nat → List Out → Option (Ans × Nat × List Out)
+
+/-- the scripted inner service: the next outcome of the script; beyond the script, success -/
+def base : Svc
+  | k, [] => some (.ok (k + 1), k + 1, [])
+  | k, .ok :: tl => some (.ok (k + 1), k + 1, tl)
+  | k, .err kd :: tl => some (.err ⟨"", kd, k + 1, ""⟩, k + 1, tl)
+  | _, _ :: _ => none
+
+/-- forward once, hand the answer back with `f` around an error -/
+def through (f : Err → Err) (inner : Svc) : Svc := fun k s =>
+  match inner k s with
+  | some (a, k', s') => some (a.mapErr f, k', s')
+  | none => none
+
+/-- the retry loop with `left` retries left: an error the predicate accepts is retried while there are retries left;
+everything else — a success, an error the predicate rejects, the error of the last permitted attempt — is returned as it is -/
+def retryGo (inner : Svc) (p : Pred) : Nat → Svc
+  | 0, k, s => inner k s
+  | left + 1, k, s =>
+    match inner k s with
+    | some (.err e, k', s') => if p.holds e.kind then retryGo inner p left k' s' else some (.err e, k', s')
+    | r => r
+
+/-- what a fallback strategy answers to an error it handles (the harness's instances of the six strategies) -/
+def fallbackAns (st : Strat) (tag : Nat) (e : Err) : Ans :=
+  match st with
+  | .value => .lit "ok:999999:tag=999999"
+  | .valueFn => .lit "ok:999998:tag=999998"
+  | .fromErr => .lit "ok:999997:tag=999997"
+  | .fromReq => .lit s!"ok:999996:tag={tag}"
+  | .service => .lit s!"ok:999995:tag={tag}"
+  | .exc => .err ((e.wrap "mapped").wrap "fallback")
+
+/-- reconnect: `att` connection failures so far -/
+def reconGo (inner : Svc) (max : Option Nat) (policy retry : Bool) : Nat → Nat → Svc
+  | 0, _, _, _ => none
+  | fuel + 1, att, k, s =>
+    match inner k s with
+    | some (.err e, k', s') =>
+      if e.kind != 1 then some (.err (e.wrap "reconnect"), k', s')
+      else if (match max with | some m => decide (m < att + 1) | none => false) then
+        some (.err (e.wrap s!"reconnect!max_attempts:{att + 1}"), k', s')
+      else if !policy then some (.err (e.wrap "reconnect!conn_failed"), k', s')
+      else if !retry then some (.err (e.wrap "reconnect!no_retry"), k', s')
+      else reconGo inner max policy retry fuel (att + 1) k' s'
+    | r => r
+
+/-- not predicted -/
+def unknown : Svc := fun _ _ => none
+
+def applyL (ctx : Ctx) : LCfg → Svc → Svc
+  | .wrap name, inner => through (·.wrap name) inner
+  | .bare, inner => inner
+  | .guard name cap wait, inner => if ctx.demand ≤ cap ∨ ctx.span < wait then through (·.wrap name) inner else unknown
+  | .limiter name t, inner => if ctx.span < t then through (·.wrap name) inner else unknown
+  | .retry max p, inner => retryGo inner p (max - 1)
+  | .fallback st p, inner => fun k s =>
+      match inner k s with
+      | some (.err e, k', s') =>
+        if p.holds e.kind then some (fallbackAns st ctx.tag e, k', s') else some (.err (e.wrap "fallback"), k', s')
+      | r => r
+  | .hedge n delay, inner =>
+      -- no room for a hedge: the one attempt's answer (its error as `AllAttemptsFailed`)
+      if n ≤ 1 then through (·.wrap "hedge!all_failed") inner
+      else match delay with
+        | some d =>
+          -- the request was answered before the first hedge was due: by the first attempt, successfully
+          if ctx.span < d then fun k s =>
+            match inner k s with
+            | some (.err _, _, _) => none
+            | r => r
+          else unknown
+        | none => unknown
+  | .reconnect max policy retry, inner => fun k s => reconGo inner max policy retry (s.length + 2) 0 k s
+  | .blackbox, _ => unknown
+
+/-- a stack of configured layers, outermost first, over the scripted inner service -/
+def denote (ctx : Ctx) : List LCfg → Svc
+  | [] => base
+  | l :: ls => applyL ctx l (denote ctx ls)
+
+/-! ### untriggered layers -/
+
+def errKind : Out → Option Nat
+  | .err kd => some kd
+  | _ => none
+
+/-- the layer's protective condition is not triggered by a request whose (first) inner call has the outcome `o`:
+the configuration leaves the layer nothing to do but forward the request and hand the answer back -/
+def quiet (ctx : Ctx) (o : Out) : LCfg → Bool
+  | .wrap _ => true
+  | .bare => true
+  | .guard _ cap wait => decide (ctx.demand ≤ cap ∨ ctx.span < wait)
+  | .limiter _ t => decide (ctx.span < t)
+  | .retry max p => decide (max ≤ 1) || !((errKind o).any p.holds)
+  | .fallback _ p => !((errKind o).any p.holds)
+  | .hedge n d => decide (n ≤ 1) || (o == .ok && (match d with | some dd => decide (ctx.span < dd) | none => false))
+  | .reconnect _ _ _ => !(errKind o == some 1)
+  | .blackbox => false
+
+/-- the layer's pass-through variant around an answer of its inner service -/
+def passOne : LCfg → Ans → Ans
+  | .wrap name, a => a.mapErr (·.wrap name)
+  | .guard name _ _, a => a.mapErr (·.wrap name)
+  | .limiter name _, a => a.mapErr (·.wrap name)
+  | .fallback _ _, a => a.mapErr (·.wrap "fallback")
+  | .hedge _ _, a => a.mapErr (·.wrap "hedge!all_failed")
+  | .reconnect _ _ _, a => a.mapErr (·.wrap "reconnect")
+  | _, a => a
+
+def passAll (ls : List LCfg) (a : Ans) : Ans := ls.foldr passOne a
+
+/-- the scripted service's answer to the request's `n`-th call with outcome `o` -/
+def answerOf (o : Out) (n : Nat) : Ans :=
+  match o with
+  | .err kd => .err ⟨"", kd, n, ""⟩
+  | _ => .ok n
+
+/-! ### the configurations of the harness's layers (`cf<j>=<knob>:<value>/…`, `rl=…`) -/
+
+def parseCf (s : String) : List (String × String) :=
+  (s.splitOn "/").filterMap fun it =>
+    match it.splitOn ":" with
+    | k :: v :: rest => some (k, ":".intercalate (v :: rest))
+    | _ => none
+
+def cfGet (cf : List (String × String)) (k : String) : Option String :=
+  match cf with
+  | [] => none
+  | (a, b) :: tl => if a = k then some b else cfGet tl k
+
+def cfNat (cf : List (String × String)) (k : String) (d : Nat) : Nat :=
+  match cfGet cf k with
+  | some v => v.toNat?.getD d
+  | none => d
+
+/-- `<ms>` or `max` (`Duration::MAX`: longer than any case) -/
+def durOf (v : String) : Nat := if v = "max" then 18446744073709551615000 else v.toNat?.getD 0
+
+def predOf (w : String) : Pred :=
+  if w = "all" then .all else if w = "e1" then .kind 1 else if w = "e2" then .kind 2 else .none
+
+def stratOf (w : String) : Strat :=
+  if w = "valuefn" then .valueFn else if w = "fromerr" then .fromErr else if w = "fromreq" then .fromReq
+  else if w = "service" then .service else if w = "exc" then .exc else .value
+
+def nthNat (l : List String) (i : Nat) (d : Nat) : Nat :=
+  match l[i]? with
+  | some v => v.toNat?.getD d
+  | none => d
+
+/-- the layer `name` of the harness with the knobs `cf` (`rl`: the header's configuration of the rate limiters) -/
+def lcfgOf (name : String) (cf : List (String × String)) (rl : String) : LCfg :=
+  let hedge (n : Nat) (d : Option Nat) : LCfg :=
+    .hedge (cfNat cf "n" n) (match cfGet cf "d" with
+      | some v => if v = "none" then none else if durOf v = 0 then none else some (durOf v)
+      | none => d)
+  match name with
+  | "bulkhead" =>
+      match cfGet cf "mw" with
+      | some v => .guard "bulkhead" (cfNat cf "mc" 100) (durOf v)
+      | none => .wrap "bulkhead"
+  | "bulkhead1" => .guard "bulkhead" 1 0
+  | "bulkhead1w" => .guard "bulkhead" 1 10
+  | "ratelimiter" =>
+      let p := rl.splitOn ":"
+      -- (a limiter that sees that the wait for a permit would exceed its timeout rejects at once: no `wait`)
+      if rl = "" then .guard "ratelimiter" 100000 0 else .guard "ratelimiter" (nthNat p 0 100000) 0
+  | "circuit" =>
+      match cfGet cf "cb" with
+      | some v =>
+        let p := v.splitOn ":"
+        if 100 < nthNat p 2 50 then .wrap "circuit" else .guard "circuit" (nthNat p 1 1000 - 1) 0
+      | none => .guard "circuit" 999 0
+  | "timelimiter" | "timelimiter_nocancel" =>
+      .limiter "timelimiter" (match cfGet cf "to" with | some v => durOf v | none => 3600000)
+  | "retry" => .retry (cfNat cf "ma" 3) (predOf ((cfGet cf "ro").getD "e1"))
+  | "cache" => .wrap "cache"
+  | "fallback" =>
+      -- (`hp:unset`: no `handle` predicate configured — every error is handled)
+      let hp := (cfGet cf "hp").getD "never"
+      .fallback (stratOf ((cfGet cf "st").getD "value")) (if hp = "unset" then .all else predOf hp)
+  | "hedge" => hedge 2 (some 3600000)
+  | "hedge1" => hedge 1 (some 3600000)
+  | "hedge_fire" => hedge 2 (some 5)
+  | "hedge_parallel" => hedge 3 none
+  | "reconnect" =>
+      .reconnect (match cfGet cf "ma" with | some v => if v = "unl" then none else some (v.toNat?.getD 2) | none => some 2)
+        ((cfGet cf "pol").getD "fixed" != "none") (cfNat cf "ror" 1 == 1)
+  | "adaptive" => .guard "adaptive" (match cfGet cf "lim" with | some v => v.toNat?.getD 500 | none => 500) 0
+  | "coalesce" => .wrap "coalesce"
+  | "executor" => .wrap "executor"
+  | "chaos" => .bare
+  | _ => .blackbox
+
+/-- serial of the request's `ord`-th (1, 2, …) inner call: its position among the calls at the innermost boundary -/
+def nthIdx : List Nat → Nat → Nat → Nat → Option Nat
+  | [], _, _, _ => none
+  | t :: tl, tag, ord, i =>
+    if t = tag then (if ord ≤ 1 then some i else nthIdx tl tag (ord - 1) (i + 1)) else nthIdx tl tag ord (i + 1)
+
+def showSerial (bottom : List Nat) (tag ord : Nat) : String :=
+  match nthIdx bottom tag ord 0 with
+  | some k => toString k
+  | none => s!"#{ord}"
+
+/-- the answer in the harness's grammar; `bottom`: the tags of the calls at the innermost boundary, in order -/
+def Ans.render (bottom : List Nat) (tag : Nat) : Ans → String
+  | .ok ord => s!"ok:{showSerial bottom tag ord}:tag={tag}"
+  | .lit s => s
+  | .err e => s!"err:{e.pre}ierr{e.kind}:{showSerial bottom tag e.ord}{e.post}"
+
+/-! ## readiness errors surface
+
+`poll_ready` is forwarded: when the inner instance a layer holds for its caller answers with an error, the layer's own
+`poll_ready` — the one in which that happened — answers with an error, and it answers with an error only then. `YSt` is
+`LSt` with that one register: the held inner instance whose `poll_ready` has just failed. While it is set, the one thing
+the layer can do is hand the failure up. (Instances a layer owns — retry, hedge and reconnect poll those themselves —
+fail into the call's answer instead: no register.) -/
+
+structure YSt where
+  l    : LSt := {}
+  pend : Option Nat := none     -- a held inner instance whose readiness error has not been handed up yet
+
+def YSt.step (y : YSt) (x : LIn) : Option YSt :=
+  match y.pend with
+  | some i =>
+    match x with
+    | .outer (.poll o .err) => if y.l.cur o = some i then (y.l.step x).map fun l' => { l := l', pend := none } else none
+    | _ => none
+  | none =>
+    match x with
+    | .outer (.poll _ .err) => none
+    | .inner (.poll i .err) => (y.l.step x).map fun l' => { l := l', pend := if heldBy y.l i then some i else none }
+    | _ => (y.l.step x).map fun l' => { l := l', pend := none }
+
+def YSt.run (y : YSt) : List LIn → Option YSt
+  | [] => some y
+  | e :: es => match y.step e with
+    | some y' => y'.run es
+    | none => none
+
+/-! ## answers at the boundaries
+
+The call futures are observed too: `ret k tag r` — the future of the k-th call at a boundary, made for request `tag`,
+has resolved with `r`. `RSt` is what a layer in configuration `c` can do about answers, as a guarded transition like
+`LSt`: which outer calls it has not forwarded yet (`wait`), which inner calls are in flight (`inflight`, with the number
+of the attempt), which inner answers it has not handed up yet (`got`). An inner call needs an outer call that has not
+been forwarded — or, for the layers that re-issue, a failed attempt that the configuration allows to repeat (`reissue`),
+or room for a hedge; an answer handed up needs an inner answer it is made of according to the configuration's rule
+(`answerOK`: unchanged under the pass-through variant; for retry the LAST attempt's, when the attempts are used up or
+the predicate rejects the error; for fallback what the strategy makes of an accepted error; …), or it is the layer's
+own refusal of a call it had not forwarded (`ownOK`). Counters per request tag are kept next to the lists so that
+"at most once" is plain arithmetic. -/
+
+inductive RVal
+  | ok (v tag : Nat)
+  | err (text : String)
+deriving DecidableEq, Repr
+
+inductive XEv
+  | ev (e : Ev)
+  | ret (k tag : Nat) (r : RVal)
+deriving DecidableEq, Repr
+
+inductive XIn
+  | outer (e : XEv)
+  | inner (e : XEv)
+deriving DecidableEq, Repr
+
+/-- the pass-through variant `name(…)` around an error; a response is not touched -/
+def RVal.wrap (name : String) : RVal → RVal
+  | .err t => .err (name ++ "(" ++ t ++ ")")
+  | r => r
+
+def digitsVal (cs : List Char) : Option Nat :=
+  let ds := cs.takeWhile Char.isDigit
+  if ds.isEmpty then none else some (ds.foldl (fun n c => 10 * n + (c.toNat - 48)) 0)
+
+/-- what follows the first occurrence of `pat` -/
+def afterFirst (pat : List Char) : List Char → Option (List Char)
+  | [] => if pat.isEmpty then some [] else none
+  | c :: tl => if pat.isPrefixOf (c :: tl) then some ((c :: tl).drop pat.length) else afterFirst pat tl
+
+/-- the kind of the inner service's error inside an error text: the number after the first `ierr` -/
+def kindOf (text : String) : Option Nat :=
+  match afterFirst "ierr".toList text.toList with
+  | some rest => digitsVal rest
+  | none => none
+
+/-- does the predicate accept this answer as an error to act on? (an error of a layer's own, without an inner error in
+it, is accepted only by "every error") -/
+def Pred.accepts (p : Pred) : RVal → Bool
+  | .err t => match kindOf t with
+    | Option.some k => p.holds k
+    | Option.none => p == .all
+  | .ok _ _ => false
+
+/-- a connection failure for the harness's reconnect layer: an error of kind 1 -/
+def isConn : RVal → Bool
+  | .err t => kindOf t == some 1
+  | .ok _ _ => false
+
+/-- an error of the layer's own: `name!…` -/
+def isOwn (name : String) : RVal → Bool
+  | .err t => (name ++ "!").toList.isPrefixOf t.toList
+  | .ok _ _ => false
+
+/-- what the harness's instance of a fallback strategy makes of an error with text `text` of request `tag` -/
+def fbVal (st : Strat) (tag : Nat) (text : String) : RVal :=
+  match st with
+  | .value => .ok 999999 999999
+  | .valueFn => .ok 999998 999998
+  | .fromErr => .ok 999997 999997
+  | .fromReq => .ok 999996 tag
+  | .service => .ok 999995 tag
+  | .exc => .err ("fallback(mapped(" ++ text ++ "))")
+
+structure Flight where
+  k   : Nat
+  tag : Nat
+  att : Nat      -- which attempt of its outer call this is (1 = the first)
+deriving DecidableEq, Repr
+
+structure Got where
+  tag : Nat
+  att : Nat
+  r   : RVal
+deriving DecidableEq, Repr
+
+/-- the first element with the property, and the rest -/
+def takeFirst {α : Type} (p : α → Bool) : List α → Option (α × List α)
+  | [] => none
+  | x :: tl => if p x then some (x, tl) else
+    match takeFirst p tl with
+    | some (y, tl') => some (y, x :: tl')
+    | none => none
+
+structure RSt where
+  wait     : Nat → Nat := fun _ => 0      -- outer calls not forwarded yet, per tag
+  spare    : Nat → Nat := fun _ => 0      -- further attempts a hedge may start side by side, per tag
+  inflight : List Flight := []
+  got      : List Got := []               -- inner answers not handed up yet
+  answered : List (Nat × RVal) := []      -- answers handed up so far
+  nIC      : Nat := 0                     -- inner calls so far (the next one's number)
+  -- counters per tag
+  oc   : Nat → Nat := fun _ => 0          -- outer calls
+  ic   : Nat → Nat := fun _ => 0          -- inner calls
+  ir   : Nat → Nat := fun _ => 0          -- inner answers
+  ors  : Nat → Nat := fun _ => 0          -- answers handed up that are made of an inner answer
+  own  : Nat → Nat := fun _ => 0          -- answers the layer gave itself
+  fly  : Nat → Nat := fun _ => 0          -- inner calls in flight
+  held : Nat → Nat := fun _ => 0          -- inner answers not handed up yet
+  re   : Nat → Nat := fun _ => 0          -- failed attempts that were re-issued
+  perr : Nat := 0                         -- readiness errors of the inner service not accounted for yet
+  multi : Nat → Bool := fun _ => false    -- tags for which the layer has served several calls at a time (hedged copies from above)
+  seen : List (Nat × RVal) := []          -- every inner answer so far, with its tag
+
+/-- how many attempts of one outer call a hedge may have side by side -/
+def hedgeN : LCfg → Nat
+  | .hedge n _ => n
+  | _ => 1
+
+/-- may the failed attempt `g` be repeated? (`m`: the layer has served several calls for this tag side by side — copies
+sent by a hedge above —, whose attempts cannot be told apart by the tag: the count of attempts is not checked then) -/
+def reissue (c : LCfg) (m : Bool) (g : Got) : Bool :=
+  match c with
+  | .retry max p => p.accepts g.r && (m || decide (g.att < Nat.max max 1))
+  | .reconnect max policy retry =>
+      isConn g.r && policy && retry && (m || (match max with | some mx => decide (g.att ≤ mx) | none => true))
+  | _ => false
+
+/-- is `ro` what the layer makes of the inner answer `g` of request `t`? -/
+def answerOK (c : LCfg) (m : Bool) (t : Nat) (g : Got) (ro : RVal) : Bool :=
+  match c with
+  | .wrap name => ro == g.r.wrap name
+  | .guard name _ _ => ro == g.r.wrap name
+  | .limiter name _ => ro == g.r.wrap name
+  | .bare => ro == g.r
+  | .retry max p => ro == g.r && (!(p.accepts g.r) || m || decide (Nat.max max 1 ≤ g.att))
+  | .fallback st p =>
+      match g.r with
+      | .err text => if p.accepts g.r then ro == fbVal st t text else ro == g.r.wrap "fallback"
+      | .ok _ _ => ro == g.r
+  | .hedge _ _ =>
+      match g.r with
+      | .ok _ _ => ro == g.r
+      -- (all attempts failed: the error of the first attempt that reported one)
+      | .err _ => ro == g.r.wrap "hedge!all_failed"
+  | .reconnect max policy retry =>
+      if !isConn g.r then ro == g.r.wrap "reconnect"
+      else if m then isOwn "reconnect" ro
+      else if (match max with | some m => decide (m < g.att) | none => false) then ro == g.r.wrap s!"reconnect!max_attempts:{g.att}"
+      else if !policy then ro == g.r.wrap "reconnect!conn_failed"
+      else if !retry then ro == g.r.wrap "reconnect!no_retry"
+      else false
+  | .blackbox => true
+
+/-- layers that answer a request from what they answered to another request with its key (tag modulo 1000) -/
+def keyedName (name : String) : Bool := name == "cache" || name == "coalesce"
+
+/-- may the layer answer request `t` itself with `ro`? -/
+def ownOK (c : LCfg) (s : RSt) (t : Nat) (ro : RVal) : Bool :=
+  match c with
+  | .wrap name =>
+      isOwn name ro ||
+      (keyedName name && decide (0 < s.wait t) && s.answered.any fun (t', r') => t' % 1000 == t % 1000 && r' == ro)
+  | .guard name _ _ => isOwn name ro
+  | .limiter name _ => isOwn name ro
+  -- the layers that poll an instance themselves before a further attempt: when that `poll_ready` fails there is no
+  -- attempt, the readiness error is the answer (retry: as it is; reconnect: as a service error)
+  | .retry _ _ => decide (0 < s.perr) && (match ro with | .err _ => true | .ok _ _ => false)
+  | .reconnect _ _ _ => decide (0 < s.perr) && (match ro with | .err _ => true | .ok _ _ => false)
+  -- (a hedged attempt whose instance fails `poll_ready` fails with that error)
+  | .hedge _ _ => decide (0 < s.perr) && isOwn "hedge" ro
+  | _ => false
+
+/-- is there room for one more attempt for tag `t`, all its outer calls taken together? (each outer call may have
+`max` attempts; this bound also holds when several calls for one tag are served side by side) -/
+def room (c : LCfg) (s : RSt) (t : Nat) : Bool :=
+  match c with
+  | .retry max _ => decide (s.ic t < Nat.max max 1 * s.oc t)
+  | .reconnect max policy retry =>
+      policy && retry && (match max with | some m => decide (s.ic t < (m + 1) * s.oc t) | none => true)
+  | _ => false
+
+/-- an inner call for `t` goes out: attempt number `att` of its outer call -/
+def launch (s : RSt) (t att : Nat) : RSt :=
+  { s with inflight := ⟨s.nIC, t, att⟩ :: s.inflight, nIC := s.nIC + 1, ic := upd s.ic t (s.ic t + 1),
+           fly := upd s.fly t (s.fly t + 1) }
+
+def innerCallR (c : LCfg) (s : RSt) (t : Nat) : Option RSt :=
+  if c = .blackbox then some { s with nIC := s.nIC + 1 } else
+  if 0 < s.wait t then
+    -- an outer call that has not been forwarded yet
+    some (launch { s with wait := upd s.wait t (s.wait t - 1), spare := upd s.spare t (s.spare t + (hedgeN c - 1)) } t 1)
+  else match takeFirst (fun g => g.tag == t && reissue c (s.multi t) g) s.got with
+    | some (g, got') =>
+      -- a failed attempt that the configuration allows to repeat
+      if 0 < s.held t ∧ room c s t = true then
+        some (launch { s with got := got', held := upd s.held t (s.held t - 1), re := upd s.re t (s.re t + 1) } t (g.att + 1))
+      else none
+    | none =>
+      -- a hedged attempt next to the first one
+      if 0 < s.spare t then some (launch { s with spare := upd s.spare t (s.spare t - 1) } t 2) else none
+
+def innerRetR (c : LCfg) (s : RSt) (k t : Nat) (r : RVal) : Option RSt :=
+  match takeFirst (fun f => f.k == k && f.tag == t) s.inflight with
+  | some (f, fl') =>
+    if 0 < s.fly t then
+      some { s with inflight := fl', fly := upd s.fly t (s.fly t - 1), got := ⟨t, f.att, r⟩ :: s.got,
+                    held := upd s.held t (s.held t + 1), ir := upd s.ir t (s.ir t + 1), seen := (t, r) :: s.seen }
+    else none
+  | none => if c = .blackbox then some s else none
+
+def outerRetR (c : LCfg) (s : RSt) (t : Nat) (ro : RVal) : Option RSt :=
+  if c = .blackbox then some s else
+  if s.ors t + s.own t < s.oc t then
+    match takeFirst (fun g => g.tag == t && answerOK c (s.multi t) t g ro) s.got with
+    | some (_, got') =>
+      if 0 < s.held t then
+        some { s with got := got', held := upd s.held t (s.held t - 1), ors := upd s.ors t (s.ors t + 1),
+                      answered := (t, ro) :: s.answered }
+      else none
+    | none =>
+      if ownOK c s t ro then
+        some { s with wait := upd s.wait t (s.wait t - 1), own := upd s.own t (s.own t + 1), answered := (t, ro) :: s.answered,
+                      perr := s.perr - 1 }
+      else none
+  else none
+
+def RSt.step (c : LCfg) (s : RSt) : XIn → Option RSt
+  | .outer (.ev (.call _ t)) =>
+      some { s with wait := upd s.wait t (s.wait t + 1), oc := upd s.oc t (s.oc t + 1),
+                    multi := if s.ors t + s.own t < s.oc t then upd s.multi t true else s.multi }
+  | .outer (.ev _) => some s
+  | .inner (.ev (.call _ t)) => innerCallR c s t
+  | .inner (.ev (.poll _ .err)) => some { s with perr := s.perr + 1 }
+  | .inner (.ev _) => some s
+  | .inner (.ret k t r) => innerRetR c s k t r
+  | .outer (.ret _ t ro) => outerRetR c s t ro
+
+def RSt.run (c : LCfg) (s : RSt) : List XIn → Option RSt
+  | [] => some s
+  | e :: es => match s.step c e with
+    | some s' => s'.run c es
+    | none => none
+
+/-! counting the events of a layer's view, per request tag -/
+
+def cntOC (t : Nat) : List XIn → Nat
+  | [] => 0
+  | .outer (.ev (.call _ t')) :: tl => (if t' = t then 1 else 0) + cntOC t tl
+  | _ :: tl => cntOC t tl
+
+def cntIC (t : Nat) : List XIn → Nat
+  | [] => 0
+  | .inner (.ev (.call _ t')) :: tl => (if t' = t then 1 else 0) + cntIC t tl
+  | _ :: tl => cntIC t tl
+
+def cntIR (t : Nat) : List XIn → Nat
+  | [] => 0
+  | .inner (.ret _ t' _) :: tl => (if t' = t then 1 else 0) + cntIR t tl
+  | _ :: tl => cntIR t tl
+
+def cntOR (t : Nat) : List XIn → Nat
+  | [] => 0
+  | .outer (.ret _ t' _) :: tl => (if t' = t then 1 else 0) + cntOR t tl
+  | _ :: tl => cntOR t tl
+
+/-- a configuration in which a layer never makes more than one inner call for an outer call -/
+def single : LCfg → Bool
+  | .retry max _ => decide (max ≤ 1)
+  | .hedge n _ => decide (n ≤ 1)
+  | .reconnect max policy retry => !policy || !retry || max == some 0
+  | .blackbox => false
+  | _ => true
+
+abbrev XG := Nat × XEv
+
+def xview (j : Nat) : List XG → List XIn
+  | [] => []
+  | (b, e) :: tl => if b = j then .outer e :: xview j tl else if b = j + 1 then .inner e :: xview j tl else xview j tl
+
+def xproj (j : Nat) : List XG → List XEv
+  | [] => []
+  | (b, e) :: tl => if b = j then e :: xproj j tl else xproj j tl
+
+/-- the calls made for request `t` at one boundary -/
+def calls (t : Nat) : List XEv → Nat
+  | [] => 0
+  | .ev (.call _ t') :: tl => (if t' = t then 1 else 0) + calls t tl
+  | _ :: tl => calls t tl
+
+/-- the layers `cfgs` (outermost first) sit between the boundaries `j`, `j + 1`, …: each of them, in its configuration,
+can do what the global log says happened at its two boundaries -/
+def AcceptedFrom (g : List XG) : List LCfg → Nat → Prop
+  | [], _ => True
+  | c :: cs, j => (RSt.run c {} (xview j g)).isSome ∧ AcceptedFrom g cs (j + 1)
+
+/-- what a pass-through configuration does to the answer of its inner service -/
+def passR : LCfg → Option (RVal → RVal)
+  | .wrap name => some (RVal.wrap name)
+  | .guard name _ _ => some (RVal.wrap name)
+  | .limiter name _ => some (RVal.wrap name)
+  | .bare => some id
+  | _ => none
+
+/-- where an answer `r` to request `t` seen at boundary `j` comes from, the layers `cfgs` lying below that boundary:
+it is the wrapped service's own answer (no layer left), or the layer right below the boundary gave it itself (a refusal
+`name!…` of its own, a cached / coalesced answer), or it is that layer's pass-through variant around an answer that
+is explained one boundary further down -/
+def Explained (g : List XG) (t : Nat) : List LCfg → Nat → RVal → Prop
+  | [], j, r => ∃ k, XEv.ret k t r ∈ xproj j g
+  | c :: cs, j, r =>
+      (∃ s0, ownOK c s0 t r = true) ∨ ∃ f ri, passR c = some f ∧ r = f ri ∧ Explained g t cs (j + 1) ri
+
 /-! ## line protocol: the driver replays the implementation's boundary events (`@ev=b<j>:…`) -/
+
+/-- a request of the case -/
+structure RInfo where
+  tag    : Nat
+  script : List Out
+  t0     : Nat              -- instant of its arrival
+  called : Bool := false    -- it has been handed to the outermost layer (`b0 call … <tag>`)
 
 structure DState where
   n      : Nat
-  layers : List (Option LSt)          -- `none` = that layer has already rejected an event
+  layers : List (Option YSt)          -- `none` = that layer has already rejected an event
+  resps  : List (Option RSt) := []    -- the layers' bookkeeping of answers
   mons   : List (Option Mon)
   now    : Nat := 0
+  cfgs   : List LCfg := []            -- the layers' configurations, outermost first
+  reqs   : List (Nat × RInfo) := []
+  bottom : List Nat := []             -- tags of the calls at the innermost boundary, in order (the i-th has serial i)
+  fanout : Nat := 1                   -- attempts a request may have side by side (product of the hedges' `n`)
+  demand : Nat := 0                   -- upper bound on the calls at any one boundary so far
+  keyed  : Bool := false              -- a cache / coalesce layer is in the stack
+  echo   : Bool := false              -- answers are not predicted (any more): see `machine`
 
-def parseEv (s : String) : Option GEv :=
+def parseRVal (ws : List String) : RVal :=
+  match ws with
+  | "ok" :: v :: rest =>
+      -- `ok:<v>:tag=<t>`
+      .ok (v.toNat?.getD 0) (match rest with | t :: _ => ((t.drop 4).toString.toNat?.getD 0) | [] => 0)
+  | "err" :: rest => .err (":".intercalate rest)
+  | _ => .err (":".intercalate ws)
+
+def parseEv (s : String) : Option XG :=
   match s.splitOn ":" with
-  | [b, "clone", x, y] => some ((b.drop 1).toString.toNat?.getD 0, .clone (x.toNat?.getD 0) (y.toNat?.getD 0))
+  | [b, "clone", x, y] => some ((b.drop 1).toString.toNat?.getD 0, .ev (.clone (x.toNat?.getD 0) (y.toNat?.getD 0)))
   | [b, "poll", x, r] =>
       some ((b.drop 1).toString.toNat?.getD 0,
-        .poll (x.toNat?.getD 0) (if r = "ready" then .ready else if r = "pending" then .pending else .err))
-  | [b, "call", x, t] => some ((b.drop 1).toString.toNat?.getD 0, .call (x.toNat?.getD 0) (t.toNat?.getD 0))
+        .ev (.poll (x.toNat?.getD 0) (if r = "ready" then .ready else if r = "pending" then .pending else .err)))
+  | [b, "call", x, t] => some ((b.drop 1).toString.toNat?.getD 0, .ev (.call (x.toNat?.getD 0) (t.toNat?.getD 0)))
+  | b :: "ret" :: k :: t :: rest =>
+      some ((b.drop 1).toString.toNat?.getD 0, .ret (k.toNat?.getD 0) (t.toNat?.getD 0) (parseRVal rest))
   | _ => none
 
-def renderEv (g : GEv) : String :=
+def RVal.render : RVal → String
+  | .ok v t => s!"ok:{v}:tag={t}"
+  | .err t => s!"err:{t}"
+
+def renderEv (g : XG) : String :=
   match g.2 with
-  | .clone s n => s!"b{g.1} clone {s} {n}"
-  | .poll i r => s!"b{g.1} poll {i} {match r with | .ready => "ready" | .pending => "pending" | .err => "err"}"
-  | .call i t => s!"b{g.1} call {i} {t}"
+  | .ev (.clone s n) => s!"b{g.1} clone {s} {n}"
+  | .ev (.poll i r) => s!"b{g.1} poll {i} {match r with | .ready => "ready" | .pending => "pending" | .err => "err"}"
+  | .ev (.call i t) => s!"b{g.1} call {i} {t}"
+  | .ret k t r => s!"b{g.1} ret {k} {t} {r.render}"
 
 def stepAt {α : Type} (l : List (Option α)) (j : Nat) (f : α → Option α) : List (Option α) × Bool :=
   match l[j]? with
@@ -230,29 +904,109 @@ def stepAt {α : Type} (l : List (Option α)) (j : Nat) (f : α → Option α) :
 
 /-- feed one observed boundary event to the layer above it (as inner), the boundary's monitor,
 and the layer below it (as outer); report what was rejected -/
-def feed (d : DState) (g : GEv) : DState × List TR.Ev :=
-  let (b, e) := g
-  let (ls1, ok1) := if b > 0 then stepAt d.layers (b - 1) (fun s => s.step (.inner e)) else (d.layers, true)
-  let (ms, okm) := stepAt d.mons b (fun m => m.step e)
-  let (ls2, ok2) := if b < d.n then stepAt ls1 b (fun s => s.step (.outer e)) else (ls1, true)
-  let outs :=
-    (if ok1 then [] else [s!"not-allowed layer {b - 1} cannot perform {renderEv g}"]) ++
-    (if okm then [] else [s!"contract-violated at boundary {b}: {renderEv g}"]) ++
-    (if ok2 then [] else [s!"not-allowed layer {b} cannot be driven by {renderEv g}"]) ++
-    [renderEv g]
-  ({ d with layers := ls2, mons := ms }, outs.map TR.Ev.raw)
+def cfgAt (d : DState) (j : Nat) : LCfg := (d.cfgs[j]?).getD .blackbox
+
+def feed (d : DState) (g : XG) : DState × List TR.Ev :=
+  let (b, x) := g
+  -- the answers: the layer above this boundary (its inner side), the layer below it (its outer side)
+  let (rs1, okr1) := if b > 0 then stepAt d.resps (b - 1) (fun s => s.step (cfgAt d (b - 1)) (.inner x)) else (d.resps, true)
+  let (rs2, okr2) := if b < d.n then stepAt rs1 b (fun s => s.step (cfgAt d b) (.outer x)) else (rs1, true)
+  let d := { d with resps := rs2 }
+  let routs :=
+    (if okr1 then [] else [s!"not-allowed layer {b - 1} in its configuration cannot perform {renderEv g}"]) ++
+    (if okr2 then [] else [s!"not-allowed layer {b} in its configuration cannot answer {renderEv g}"])
+  match x with
+  | .ret _ _ _ => (d, (routs ++ [renderEv g]).map TR.Ev.raw)
+  | .ev e =>
+    let (ls1, ok1) := if b > 0 then stepAt d.layers (b - 1) (fun s => s.step (.inner e)) else (d.layers, true)
+    let (ms, okm) := stepAt d.mons b (fun m => m.step e)
+    let (ls2, ok2) := if b < d.n then stepAt ls1 b (fun s => s.step (.outer e)) else (ls1, true)
+    let outs :=
+      (if ok1 then [] else [s!"not-allowed layer {b - 1} cannot perform {renderEv g}"]) ++
+      (if okm then [] else [s!"contract-violated at boundary {b}: {renderEv g}"]) ++
+      (if ok2 then [] else [s!"not-allowed layer {b} cannot be driven by {renderEv g}"]) ++
+      routs ++ [renderEv g]
+    ({ d with layers := ls2, mons := ms }, outs.map TR.Ev.raw)
+
+/-- `@fin=<c>:<answer>`: request `c` has been answered. The model's `result` line carries the answer `denote` predicts
+from the layers' configurations and the request's scripted outcomes — with the number of inner calls it predicts, when
+that is not the number made — wherever it predicts one; otherwise the observed answer (nothing is claimed). Not
+predicted: a request that was not handed to the stack (`readyerr`, `notready`), one that shares its key with another
+one under a cache / coalesce layer, everything after a caller was dropped (what was cancelled is not the request's own doing), and the cases
+in which readiness errors meet re-issued attempts or a `Buffer` meets racing attempts (`echo`). -/
+def answered (d : DState) (c : Nat) (seen : String) : TR.Ev :=
+  let out (s : String) : TR.Ev := .result c (.custom s)
+  match lookup d.reqs c with
+  | none => out seen
+  | some r =>
+    -- another request with its key (cache, coalesce: tag modulo 1000) may have led, joined or fed it
+    let shared := d.keyed && d.reqs.any fun (c', r') => c' != c && r'.tag % 1000 = r.tag % 1000
+    if d.echo || !r.called || shared then out seen else
+    match denote { tag := r.tag, demand := d.demand, span := d.now - r.t0 } d.cfgs 0 r.script with
+    | none => out seen
+    | some (a, k, _) =>
+      let made := (d.bottom.filter (· == r.tag)).length
+      out (a.render d.bottom r.tag ++ (if made = k then "" else s!" forwarded={made} expected={k}"))
+
+/-- how many calls one request can cause at any one boundary, attempts side by side apart: a request is re-issued only
+after a call made for it has failed, and beyond its script every call succeeds -/
+def callsBound (script : List Out) : Nat := (script.filter (· != .ok)).length + 1
+
+def markCalled (reqs : List (Nat × RInfo)) (tag : Nat) : List (Nat × RInfo) :=
+  reqs.map fun (c, r) => if r.tag = tag then (c, { r with called := true }) else (c, r)
+
+/-- one word of an operation line: a boundary event or an answer the implementation recorded -/
+def word (acc : DState × List TR.Ev) (w : String) : DState × List TR.Ev :=
+  let d := acc.1
+  if w.startsWith "@ev=" then
+    match parseEv (w.drop 4).toString with
+    | some g =>
+      let r := feed d g
+      let d' := r.1
+      let d' := match g with
+        | (b, .ev (.call _ tag)) =>
+          let d1 := if b = 0 then { d' with reqs := markCalled d'.reqs tag } else d'
+          if b = d1.n then { d1 with bottom := d1.bottom ++ [tag] } else d1
+        | _ => d'
+      (d', acc.2 ++ r.2)
+    | none => acc
+  else if w.startsWith "@fin=" then
+    let body := (w.drop 5).toString
+    match body.splitOn ":" with
+    | c :: rest => (d, acc.2 ++ [answered d (c.toNat?.getD 0) (":".intercalate rest)])
+    | [] => acc
+  else acc
 
 def machine : Machine where
   σ := DState
   init kv :=
-    let n := ((kv.str "layers" "").splitOn ",").filter (· ≠ "") |>.length
-    { n := n, layers := List.replicate n (some {}), mons := List.replicate (n + 1) (some {}) }
+    let names := ((kv.str "layers" "").splitOn ",").filter (· ≠ "")
+    let n := names.length
+    let cfgs := (List.range n).zipWith (fun j name => lcfgOf name (parseCf (kv.str s!"cf{j}" "")) (kv.str "rl" "")) names
+    let fanout := cfgs.foldl (fun acc l => match l with | .hedge m _ => acc * (if m = 0 then 1 else m) | _ => acc) 1
+    let reissues := cfgs.any fun l => match l with
+      | .retry m _ => decide (2 ≤ m) | .reconnect _ _ _ => true | .hedge m _ => decide (2 ≤ m) | _ => false
+    let racing := cfgs.any fun l => match l with | .hedge m _ => decide (2 ≤ m) | _ => false
+    let probes := (kv.nat "lq" 0 + kv.nat "lqe" 0) * callsBound ((parsePlan (kv.str "lqinner" "0:ok")).map (·.out))
+    { n := n, layers := List.replicate n (some {}), resps := List.replicate n (some {}), mons := List.replicate (n + 1) (some {}),
+      cfgs := cfgs, fanout := fanout, demand := probes * fanout,
+      keyed := names.any (fun x => x = "cache" || x = "coalesce"),
+      echo := ((kv.str "ready" "").toList.any (· == 'e') && reissues) || (kv.str "inner" "strict" = "buffer" && racing) }
   step := fun d ws =>
     let d := match ws with
       | "adv" :: ms :: _ => { d with now := d.now + ms.toNat?.getD 0 }
+      | "drop" :: _ => { d with echo := true }
+      | "arrive" :: c :: rest =>
+        let kv := parseKv rest
+        let c := c.toNat?.getD 0
+        let tag := kv.nat "tag" c
+        let script := (planOf kv).map (·.out)
+        { d with reqs := d.reqs ++ [(c, { tag := tag, script := script, t0 := d.now })],
+                 demand := d.demand + callsBound script * d.fanout,
+                 -- two requests with one tag cannot be told apart at the innermost boundary
+                 echo := d.echo || d.reqs.any fun (_, r) => r.tag = tag }
       | _ => d
-    let evs := ws.filterMap fun w => if w.startsWith "@ev=" then parseEv (w.drop 4).toString else none
-    evs.foldl (fun (acc : DState × List TR.Ev) g => let r := feed acc.1 g; (r.1, acc.2 ++ r.2)) (d, [])
+    ws.foldl word (d, [])
   now := fun d => d.now
 
 end TR.Stack
